@@ -1412,7 +1412,7 @@ def gen_callers_dispatch(rng, quick):
             if own:
                 shapes = [("wbp",)]
             elif w == 0:
-                shapes = [("rle",)]
+                shapes = [("rle",), ("bp",)]          # (width 0: the readers must not enter the native decoder at all)
             elif w > 24:
                 shapes = [("rle",)]
             else:
